@@ -1,12 +1,16 @@
 package transaction
 
 import (
+	"sync"
+
 	"github.com/glebziz/containers/omap"
 
 	"github.com/glebziz/fs_db/internal/model"
 )
 
 type Repo struct {
+	// m also covers the iteration in Oldest, which omap itself does not lock.
+	m       sync.RWMutex
 	storage *omap.OMap[string, model.Transaction]
 }
 
